@@ -338,24 +338,33 @@ def apply_op(doc, op):
     #      "Swap values of two nodes")
     if not path:
         raise Unspecified("extension on the root")
-    if name == "increment":
+    if name == "increment":      # "Value increment": the addressed member / array element (since 9cc9d5a) gets the operand added
         parent = get(doc, path[:-1])
-        if not isinstance(parent, dict):
-            raise Unspecified("increment below an array")
+        if isinstance(parent, list):
+            if path[-1] == b"-":         # the library's own operation: "-" is the last element, as in its remove/replace/test
+                if not parent:
+                    raise PatchError("no last element")
+                key = len(parent) - 1
+            else:
+                key = arr_index(path[-1], len(parent), False)
+        elif isinstance(parent, dict):
+            key = path[-1]
+            if key not in parent:
+                raise PatchError("no such member")
+        else:
+            raise PatchError("parent is a scalar")
         if not is_num(v) or isinstance(v, bool):
             raise PatchError("increment by a non-number")
-        if path[-1] not in parent:
-            raise PatchError("no such member")
-        cur = parent[path[-1]]
+        cur = parent[key]
         if not is_num(cur) or isinstance(cur, bool):
             raise PatchError("target is not a number")
         if isinstance(cur, tuple):
-            parent[path[-1]] = f64(num(cur) + float(num(v)))
+            parent[key] = f64(num(cur) + float(num(v)))
         else:
             r = cur + (int(num(v)) if isinstance(v, tuple) else v)
             if not -(1 << 63) <= r < (1 << 63):
                 raise Unspecified("signed overflow")
-            parent[path[-1]] = r
+            parent[key] = r
         return doc
     if name == "add_create":
         cur = doc
@@ -835,6 +844,104 @@ def eq_pair(rng, v):
     return (shuffled(rng, v) if rng.chance(2, 3) else v), "same"
 
 
+def nest(rng, d, leaf):
+    """`leaf` wrapped in d containers, each of which ENDS with the next one: all d levels close at once after the leaf"""
+    v = leaf
+    for _ in range(d):
+        pre = [rng.choice([1, "s", None, True, [], {}, 0.5, [7]]) for _ in range(rng.weighted([(0, 3), (1, 2), (2, 1)]))]
+        if rng.chance(1, 2):
+            v = pre + [v]
+        else:
+            o = {}
+            for i, x in enumerate(pre):
+                o[rng.choice(["p", "q", "0", "a/b"]) + str(i)] = x
+            o[rng.choice(["a", "b", "c", "m~n", "1"])] = v
+            v = o
+    return v
+
+
+def deep_value(rng):
+    """a container in whose serialisation 2..4 levels close at once and a sibling FOLLOWS ('}},' ']],' ']},' '}],'): a tree walk
+    that rebuilds the value (jbn_clone behind `copy`, the binary conversion) has to climb several levels in one step"""
+    def leaf():
+        return rng.choice([1, 2, "c", None, [1, 2], {"c": 1}, [], {}, 4294967296])
+    d = rng.choice([2, 2, 2, 3, 3, 4])
+    first = nest(rng, d, leaf())
+    nsib = rng.weighted([(1, 3), (2, 2), (3, 1)])
+    sibs = [rng.choice([2, "d", [3], {"e": 5}, nest(rng, rng.choice([1, 2, 3]), leaf()), None]) for _ in range(nsib)]
+    if rng.chance(1, 2):
+        v = [first] + sibs
+    else:
+        v = {"a": first}
+        for i, x in enumerate(sibs):
+            v[["d", "e", "f"][i]] = x
+    if rng.chance(1, 4):          # the multi-level close below the top of the copied value
+        v = nest(rng, 1, v)
+        if isinstance(v, list):
+            v = v + [rng.choice([9, "t"])]
+        else:
+            v["z"] = 9
+    return v
+
+
+def gen_deep_case(rng):
+    """copy / move / add / replace of values of nesting depth 2-6 whose siblings follow multi-level closes; the source is a sibling,
+    an ancestor or a descendant of the target; then `test` of the new location (and of the source) against the literal value"""
+    s = deep_value(rng)
+    inner = [p for p, x in all_paths(s) if p and isinstance(x, (list, dict))]
+    lay = rng.below(3)
+    if lay == 0:
+        doc, src = {"src": s, "k": [0, 1], "o": {"in": {}}}, "/src"
+    elif lay == 1:
+        doc, src = [0, s, {"k": []}], "/1"
+    else:
+        doc, src = {"w": {"src": s, "x": 1}, "k": [0]}, "/w/src"
+    top = isinstance(doc, dict)
+    fresh = "/dst" if top else "/2/dst"
+    arr = "/k" if top else "/2/k"
+    klen = (2, 0, 1)[lay]
+    r = rng.below(11)
+    ops = []
+    if r == 0:          # sibling
+        ops = [{"op": "copy", "from": src, "path": fresh}, {"op": "test", "path": fresh, "value": s}]
+    elif r == 1:        # an ancestor copied into its own descendant
+        t = rng.choice(inner) if inner else ""
+        tv = dict(all_paths(s)).get(t, s)
+        dst = src + t + ("/-" if isinstance(tv, list) else "/new")
+        ops = [{"op": "copy", "from": src, "path": dst}]
+        if not dst.endswith("/-"):
+            ops.append({"op": "test", "path": dst, "value": s})
+    elif r == 2:        # a descendant copied over its ancestor
+        t = rng.choice(inner) if inner else ""
+        tv = dict(all_paths(s)).get(t, s)
+        ops = [{"op": "copy", "from": src + t, "path": src}, {"op": "test", "path": src, "value": tv}]
+    elif r == 3:        # into an array: in front, at the end
+        ops = [{"op": "copy", "from": src, "path": arr + rng.choice(["/0", "/-", "/" + str(klen)])},
+               {"op": "copy", "from": src, "path": arr + "/0"}, {"op": "test", "path": arr + "/0", "value": s}]
+    elif r == 4:
+        ops = [{"op": "move", "from": src, "path": fresh}, {"op": "test", "path": fresh, "value": s}]
+    elif r == 5:        # a copy of the copy
+        ops = [{"op": "copy", "from": src, "path": fresh}, {"op": "copy", "from": fresh, "path": fresh + "2"},
+               {"op": "test", "path": fresh + "2", "value": s}]
+    elif r == 6:        # the literal value through add / replace
+        ops = [{"op": "add", "path": fresh, "value": s}, {"op": "replace", "path": arr, "value": s},
+               {"op": "test", "path": arr, "value": s}, {"op": "copy", "from": arr, "path": fresh + "2"}]
+    elif r == 7:        # part of the value: the nested chain itself, and what follows it
+        t = rng.choice(inner) if inner else ""
+        ops = [{"op": "copy", "from": src + t, "path": fresh}, {"op": "test", "path": fresh, "value": dict(all_paths(s)).get(t, s)}]
+    elif r == 8:        # copy, then change the copy: the source must stay
+        ops = [{"op": "copy", "from": src, "path": fresh}, {"op": "remove", "path": fresh + ("/0" if isinstance(s, list) else "/" + esc(list(s.keys())[0]))},
+               {"op": "test", "path": src, "value": s}]
+    elif r == 9:        # the whole document below one of its members / the root replaced by a deep member
+        ops = [{"op": "copy", "from": "", "path": fresh}] if rng.chance(1, 2) else [{"op": "copy", "from": src, "path": ""}]
+    else:               # moved to the end of an array and copied back
+        ops = [{"op": "move", "from": src, "path": arr + "/-"}, {"op": "copy", "from": arr + "/" + str(klen), "path": src},
+               {"op": "test", "path": src, "value": s}]
+    if rng.chance(1, 2):
+        ops.append({"op": "test", "path": src, "value": s})       # holds or fails per RFC; the oracle decides
+    return doc, ops
+
+
 def gen_eq_case(rng):
     """document holding a boundary value at some depth; patch = [optional harmless op,] test <near miss | equal>, modifying op.
     A `test` that passes wrongly makes the following operation visible in the tree and in the binary form."""
@@ -966,7 +1073,7 @@ def check(run):
         c = open_class(dt, pt)
         return c is None or c in OPEN_ON
     for _ in range(N):
-        doc = gen_value(rng, 3, want=rng.choice(["a", "o", "o"]))
+        doc = gen_value(rng, rng.choice([3, 3, 3, 4]), want=rng.choice(["a", "o", "o"]))
         prog = gen_program(rng, doc)
         if admit(gen_json(doc), gen_json(prog)):
             cases.append((gen_json(doc), gen_json(prog), doc, prog, "gen"))
@@ -975,6 +1082,10 @@ def check(run):
         doc, prog, kind = gen_eq_case(rng)
         if admit(gen_json(doc), gen_json(prog)):
             cases.append((gen_json(doc), gen_json(prog), doc, prog, "eq-" + kind))
+    # values of nesting depth 2-6 copied / moved / added (tree walks that rebuild a subtree: jbn_clone, binary conversion)
+    for _ in range(N // 2):
+        doc, prog = gen_deep_case(rng)
+        cases.append((gen_json(doc), gen_json(prog), doc, prog, "deep"))
     # the same equality asked directly (jbn_compare_nodes == 0, both argument orders)
     pairs = []
     for _ in range(N * 2):
